@@ -47,7 +47,7 @@ def run(ctx):
     rng = random.Random(ctx.seed * 29 + 11)
     dbdir = S.fast_scratch(ctx)
     env = S.Env(dbdir)
-    n = ctx.n(130, 3000)
+    n = ctx.n(160, 3000)
     exprs, meta, fails = [], [], []
     cov = dict(suspended_edit_with_other_writer=0, waiter_blocked_on_lock=0, set_state_during_edit=0,
                rmw_counter=0, interleaved_logs=0, typed_cases=0, failing_ops=0, three_or_more_tasks=0)
